@@ -32,6 +32,11 @@ CLAIMED = {
          "N in {2..512} concurrent callers under reply permutations, delays across heart-beats, sequential and back-to-back duplicates, drops, unsolicited responses, phase-two requests with colliding ids, late replies (thorough) and a connection reset; each caller must get exactly the response carrying its own name and frame id or a timeout error; after every script a fresh request must complete, no goroutine may be parked in response delivery and (at the end) no message future may remain.",
          "Quiescence is logical (callers returned + round trip). Race reports are attributed to C20. The reset scenario assumes getty's reconnect.",
          "DESIGN.md §4 C14"),
+ "C15": ("exploration",
+         "runtime monitor + Go race detector: a scripted recording resource manager registered through the public rm API in a -race client child; the fake coordinator delivers mixed concurrent phase-two request streams; offline matching of responses by message id in the coordinator's frame log",
+         "Per request: number of responses carrying its message id, response type, xid and branch id, status equal to what the manager returned, no success status when the manager failed or panicked, routing by branch type (recorded manager calls, one per request, right arguments), and independence from unrelated held requests; four batches override the SAGA slot, AT, TCC and XA managers in turn.",
+         "The scripted manager replaces the real manager of its branch type in that child; requests of the other types go to the real managers with unknown resources (only addressing and count are judged for them).",
+         "DESIGN.md §4 C15"),
 }
 
 NOT_YET = "check not implemented yet in this revision of the framework (work in progress; see DESIGN.md §4 for the planned monitor)"
